@@ -156,11 +156,8 @@ func (unpacker *RtpUnpackerAac) TryUnpackOne(list *RtpPacketList) (unpackedFlag 
 	for i := range aus {
 		var outPkt base.AvPacket
 		outPkt.PayloadType = unpacker.payloadType
-		outPkt.Timestamp = rtpTimestamp2Ms(p.Packet.Header.Timestamp, unpacker.clockRate)
-		// TODO chef: 这里1024的含义
-		if unpacker.clockRate != 0 {
-			outPkt.Timestamp += int64(uint32(i * (1024 * 1000) / unpacker.clockRate))
-		}
+		// 一个AAC帧1024个采样，第i帧的rtp时间戳为包头时间戳加i*1024
+		outPkt.Timestamp = rtpTimestamp2Ms(p.Packet.Header.Timestamp+uint32(i*1024), unpacker.clockRate)
 		if int(aus[i].pos+aus[i].size) > len(b) {
 			Log.Errorf("access unit exceeds the rtp packet. pos=%d, size=%d, len(b)=%d", aus[i].pos, aus[i].size, len(b))
 			break
